@@ -94,14 +94,14 @@ Qed.
 (* C04, run-time half: the byte offset computed from the compiler's (line,
    character column) of the character with index i is exactly the UTF-8 length of
    the i characters before it — for every text and every position. *)
-Theorem roundtrip : forall t i,
-  let '(l, c) := linecol t i in byte_offset_of t l c = prefix_len t i.
+Lemma roundtrip_core : forall t i,
+  let '(l, c) := linecol t i in byte_offset_core t l c = prefix_len t i.
 Proof.
   intros t i. unfold linecol. rewrite linecol_from_spec.
   set (p := firstn i t).
   assert (Hc : (if countNL p =? 0 then 0 + lastlen p else lastlen p) = lastlen p)
     by (destruct (countNL p =? 0); lia).
-  rewrite Hc. unfold byte_offset_of.
+  rewrite Hc. unfold byte_offset_core.
   destruct (N.eqb_spec (1 + countNL p) 0) as [H|_]; [lia|].
   replace (1 + countNL p - 1) with (countNL p) by lia.
   rewrite <- (firstn_skipn i t) at 1 2. fold p.
@@ -117,18 +117,79 @@ Proof.
   - assert (blen (firstn i r) < blen (firstn j r)) by (apply IH; lia). lia.
 Qed.
 
+(* --- the byte-order mark --------------------------------------------------- *)
+
+Lemma starts_bom_first_line t : starts_bom (nthN 0 (split_nl t) []) = starts_bom t.
+Proof.
+  destruct t as [|c r]; [reflexivity|]. cbn [split_nl].
+  destruct (c =? NL) eqn:E.
+  - apply N.eqb_eq in E. subst c. reflexivity.
+  - destruct (split_nl_cons r) as (l & ls & Hs). rewrite Hs. reflexivity.
+Qed.
+
+(* on a text that does not begin with a byte-order mark the step does nothing *)
+Lemma offset_without_bom t line col : starts_bom t = false -> byte_offset_of t line col = byte_offset_core t line col.
+Proof.
+  intros H. unfold byte_offset_of, byte_offset_core.
+  destruct (line =? 0); [reflexivity|].
+  destruct (N.eqb_spec line 1) as [->|_]; [|cbn [andb]; f_equal; lia].
+  replace (1 - 1) with 0 by lia. rewrite starts_bom_first_line, H. cbn [andb]. f_equal. lia.
+Qed.
+
+(* on a text that begins with one, every position of a real line is moved by its three bytes *)
+Lemma offset_with_bom r line col : line <> 0 ->
+  byte_offset_of (BOM :: r) line col = utf8_len BOM + byte_offset_core r line col.
+Proof.
+  intros Hl. unfold byte_offset_of, byte_offset_core.
+  destruct (N.eqb_spec line 0) as [|_]; [contradiction|].
+  cbn [split_nl blen]. replace (BOM =? NL) with false by reflexivity.
+  destruct (split_nl_cons r) as (l & ls & Hs). rewrite Hs.
+  destruct (N.eqb_spec line 1) as [->|H1].
+  - replace (1 - 1) with 0 by lia. rewrite !sum_first_0, !nthN_0.
+    cbn [starts_bom andb tl]. replace (BOM =? BOM) with true by reflexivity. cbn [andb tl].
+    lia.
+  - cbn [andb]. rewrite !sum_first_pos by lia. rewrite !nthN_pos by lia. cbn [blen]. lia.
+Qed.
+
+Lemma linecol_line_pos t i : fst (linecol t i) <> 0.
+Proof. unfold linecol. rewrite linecol_from_spec. cbn [fst]. lia. Qed.
+
+(* C04, run-time half: the byte offset computed from the compiler's (line, character
+   column) of the character with index i — positions the compiler assigns after it
+   has dropped a leading byte-order mark — is exactly the offset of that character
+   in the file as it is read back: the mark's bytes, if there is one, plus the UTF-8
+   length of the i characters before it.  For every text and every position. *)
+Theorem roundtrip : forall t i,
+  let '(l, c) := linecol (strip_bom t) i in byte_offset_of t l c = bom_len t + prefix_len (strip_bom t) i.
+Proof.
+  intros t i. unfold strip_bom, bom_len.
+  destruct (starts_bom t) eqn:Hb.
+  - destruct t as [|c r]; [discriminate|]. cbn [starts_bom] in Hb. apply N.eqb_eq in Hb. subst c. cbn [tl].
+    pose proof (roundtrip_core r i) as R. pose proof (linecol_line_pos r i) as P.
+    destruct (linecol r i) as [l c]. cbn [fst] in P. rewrite offset_with_bom by exact P. rewrite R. reflexivity.
+  - pose proof (roundtrip_core t i) as R. destruct (linecol t i) as [l c].
+    rewrite offset_without_bom by exact Hb. rewrite R. lia.
+Qed.
+
+Lemma roundtrip_plain : forall t i, starts_bom t = false ->
+  let '(l, c) := linecol t i in byte_offset_of t l c = prefix_len t i.
+Proof.
+  intros t i Hb. pose proof (roundtrip t i) as R. unfold strip_bom, bom_len in R. rewrite Hb in R.
+  destruct (linecol t i) as [l c]. rewrite R. lia.
+Qed.
+
 (* C04: a token range [i, j) of the text is marked exactly. *)
-Theorem marked_range_exact : forall t i j, (i < j)%nat -> (j <= List.length t)%nat ->
-  let '(ls, cs) := linecol t i in
-  let '(le, ce) := linecol t j in
-  span_of t ls cs le ce = (prefix_len t i, prefix_len t j).
+Theorem marked_range_exact : forall t i j, (i < j)%nat -> (j <= List.length (strip_bom t))%nat ->
+  let '(ls, cs) := linecol (strip_bom t) i in
+  let '(le, ce) := linecol (strip_bom t) j in
+  span_of t ls cs le ce = (bom_len t + prefix_len (strip_bom t) i, bom_len t + prefix_len (strip_bom t) j).
 Proof.
   intros t i j Hij Hj.
   pose proof (roundtrip t i) as Ri. pose proof (roundtrip t j) as Rj.
-  destruct (linecol t i) as [ls cs]. destruct (linecol t j) as [le ce].
+  destruct (linecol (strip_bom t) i) as [ls cs]. destruct (linecol (strip_bom t) j) as [le ce].
   unfold span_of. rewrite Ri, Rj.
-  pose proof (prefix_len_lt t i j Hij Hj) as Hlt.
-  destruct (N.ltb_spec (prefix_len t i) (prefix_len t j)); [reflexivity|lia].
+  pose proof (prefix_len_lt (strip_bom t) i j Hij Hj) as Hlt.
+  destruct (N.ltb_spec (bom_len t + prefix_len (strip_bom t) i) (bom_len t + prefix_len (strip_bom t) j)); [reflexivity|lia].
 Qed.
 
 (* --- C06: the spans handed to the renderer are always safe ---------------- *)
@@ -182,14 +243,23 @@ Proof.
       apply is_boundary_step. exact IH.
 Qed.
 
-Theorem byte_offset_boundary : forall t line col, is_boundary t (byte_offset_of t line col) = true.
+Lemma core_offset_boundary : forall t line col, is_boundary t (byte_offset_core t line col) = true.
 Proof.
-  intros t line col. unfold byte_offset_of.
+  intros t line col. unfold byte_offset_core.
   destruct (line =? 0); [apply is_boundary_0|].
   set (x := sum_first _ _ + _).
   destruct (N.le_gt_cases x (blen t)) as [H|H].
   - rewrite N.min_l by exact H. apply raw_offset_boundary.
   - rewrite N.min_r by lia. apply is_boundary_beyond. lia.
+Qed.
+
+Theorem byte_offset_boundary : forall t line col, is_boundary t (byte_offset_of t line col) = true.
+Proof.
+  intros t line col. destruct (starts_bom t) eqn:Hb.
+  - destruct t as [|c r]; [discriminate|]. cbn [starts_bom] in Hb. apply N.eqb_eq in Hb. subst c.
+    destruct (N.eqb_spec line 0) as [->|Hl]; [reflexivity|].
+    rewrite offset_with_bom by exact Hl. apply is_boundary_step. apply core_offset_boundary.
+  - rewrite offset_without_bom by exact Hb. apply core_offset_boundary.
 Qed.
 
 Theorem byte_offset_le : forall t line col, byte_offset_of t line col <= blen t.
@@ -240,6 +310,12 @@ Qed.
 Lemma byte_offset_of_old_refuted :
   exists t i, let '(l, c) := linecol t i in byte_offset_of_old t l c <> prefix_len t i.
 Proof. exists [233; 120], 1%nat. vm_compute. discriminate. Qed.
+
+(* the second repair: a file that begins with a byte-order mark and has the marked character on its first
+   line (`<BOM>x=` with the `=` marked): without the byte-order-mark step the offset is the one of the `x` *)
+Lemma byte_offset_core_refuted :
+  exists t i, let '(l, c) := linecol (strip_bom t) i in byte_offset_core t l c <> bom_len t + prefix_len (strip_bom t) i.
+Proof. exists [65279; 120; 61], 1%nat. vm_compute. discriminate. Qed.
 
 Lemma span_of_old_unsafe :
   exists t ls cs le ce, let '(s, e) := span_of_old t ls cs le ce in is_boundary t s = false.
